@@ -460,6 +460,28 @@ class Hydrodynamics:
             sol.success or np.sum(sol.fun**2) < 1e-6
         )  # If the error is small enough,
         # we consider that root has converged even if it returns False.
+        if not self.success:
+            # hybr sometimes stalls from the template model's guess although a
+            # solution exists close to it: try again from nearby starting points.
+            for factorTp, factorTm in (
+                (1.01, 1.0), (0.99, 1.0), (1.0, 1.01), (1.0, 0.99), (1.03, 0.97), (0.97, 1.03),
+            ):
+                guess = [factorTp * Tpm0[0], factorTm * Tpm0[1]]
+                if not (
+                    self.TMinHydro < guess[0] < self.TMaxHydro
+                    and self.TMinHydro < guess[1] < self.TMaxHydro
+                ):
+                    continue
+                solRetry = root(
+                    matching,
+                    self._mappingT(guess),
+                    method="hybr",
+                    options={"xtol": self.atol},
+                )
+                if solRetry.success or np.sum(solRetry.fun**2) < 1e-6:
+                    sol = solRetry
+                    self.success = True
+                    break
         [Tp, Tm] = self._inverseMappingT(sol.x)
 
         vmsq = min(vw**2, self.thermodynamics.csqLowT(Tm))
